@@ -336,6 +336,16 @@ def operator_coherence(facts, res, cls=K, R="C04.2.table-subscripts"):
         ok = cond is not None and cond.get("k") == "BinaryOperator" and cond.get("op") == "<" and strip(kids(cond)[0]).get("did") == item and resolve(kids(cond)[1]).get("did") == count_did \
             and kids(init) and facts.ntext(kids(init)[0]) == "0"
         res.instance(R, "%s::%s item loop" % (cls, op), facts.loc(l0), "for(%s; %s)" % (facts.ntext(init), facts.ntext(cond) if cond else ""))
+        # every item handed to the operator is applied: nothing in the item loop skips an item depending on its values
+        # (a cell whose net charge cancels still has higher moments; a zero first coefficient says nothing about the rest)
+        lb = l0["c"][3]
+        inner_loops = [y for y in walk(lb) if y.get("k") in ("ForStmt", "WhileStmt", "DoStmt")]
+        for y in walk(lb):
+            if y.get("k") in ("ContinueStmt", "BreakStmt", "ReturnStmt") and not any(any(z is y for z in walk(il)) for il in inner_loops if y.get("k") != "ReturnStmt"):
+                g = [a for a in tbf.ancestors(y) if a.get("k") == "IfStmt" and any(z is a for z in walk(lb))]
+                res.violation(R, f, m["qname"], "item-skipped:%s@%d" % (op, y["l"][1]), y["l"][1],
+                              "%s leaves the iteration of an item early (%s%s): the item's contribution is dropped for some inputs, so the expansion is no longer the sum over all the %s handed to the operator" % (
+                                  op, y["k"][:-4].lower(), (" under `%s`" % facts.ntext(g[0]["c"][0])[:60]) if g else "", "children" if op != "M2L" else "source cells"))
         if not ok:
             res.violation(R, f, m["qname"], "item-loop:%s" % op, l0["l"][1], "the loop over the %s does not run over [0, number handed to the operator)" % ("children" if op != "M2L" else "source cells"))
     return n
